@@ -114,6 +114,8 @@ where
             }
         }
     } else {
+        #[cfg(similar_verif)]
+        crate::verif::hit(3);
         let old_orig_idx = old_range.start + common_prefix_len + old_idx;
         let new_orig_idx = new_range.start + common_prefix_len + new_idx;
         d.delete(old_orig_idx, old_len, new_orig_idx)?;
@@ -167,6 +169,8 @@ where
     for i in (0..new_len).rev() {
         // are we running for too long?  give up on the table
         if deadline_exceeded(deadline) {
+            #[cfg(similar_verif)]
+            crate::verif::hit(2);
             return None;
         }
 
